@@ -25,6 +25,38 @@ pub enum Load {
     /// a VALID frame made of a long run of maximum-size RLE / raw blocks (a few bytes of input per 128 KiB of output):
     /// nothing may be rejected and the budget of each call must still be honoured
     BlockRun { window_log: u8, nblocks: u16, raw_every: u8, block_len: u32, seed: u64 },
+    /// a frame naming a registered dictionary whose blocks consist solely of matches lying entirely inside the
+    /// dictionary content (a few input bytes per block, up to 128 KiB of output each, nothing of it a literal or a
+    /// match into the frame's own output): the budget of each call must be honoured whatever the decoder's verdict
+    /// on the frame is (only the bound is judged)
+    DictRun { dict_seed: u64, content_len: u32, window_log: u8, nblocks: u16, per_block: u8, ml: u32, offset: u32, tail_lits: u8 },
+}
+
+/// trained dictionary `dict_seed` with its content extended to `content_len` bytes (appended seeded bytes) and a new id
+fn padded_dict(dict_seed: u64, content_len: usize) -> Result<std::sync::Arc<(Vec<u8>, u32, usize)>, HarnessError> {
+    use std::cell::RefCell;
+    use std::collections::HashMap;
+    thread_local! {
+        static CACHE: RefCell<HashMap<(u64, usize), std::sync::Arc<(Vec<u8>, u32, usize)>>> = RefCell::new(HashMap::new());
+    }
+    if let Some(d) = CACHE.with(|c| c.borrow().get(&(dict_seed, content_len)).cloned()) {
+        return Ok(d);
+    }
+    let base = load_dict(&DictSpec::Trained { seed: dict_seed, size: 4096 })?;
+    let parsed = ruzstd::decoding::Dictionary::decode_dict(&base.raw).map_err(|e| HarnessError(format!("trained dictionary does not parse: {e:?}")))?;
+    let have = parsed.dict_content.len();
+    let mut raw = base.raw.clone();
+    if content_len > have {
+        let start = raw.len();
+        raw.resize(start + (content_len - have), 0);
+        Rng::new(dict_seed ^ 0x5eed).fill(&mut raw[start..]);
+    }
+    let id = base.id.wrapping_add(4242);
+    raw[4..8].copy_from_slice(&id.to_le_bytes());
+    let total = have.max(content_len);
+    let d = std::sync::Arc::new((raw, id, total));
+    CACHE.with(|c| c.borrow_mut().insert((dict_seed, content_len), d.clone()));
+    Ok(d)
 }
 
 #[derive(Clone, Copy, Debug, PartialEq, Serialize, Deserialize)]
@@ -163,7 +195,16 @@ impl Engine for C05 {
             Tier::Quick => 300,
             Tier::Thorough => 3000,
         };
-        let load = match r.below(11) {
+        let load = match r.below(12) {
+            11 => {
+                let content_len = *r.pick(&[200_000u32, 300_000]);
+                let ml = *r.pick(&[65_536u32, 65_536, 40_000, 131_072, 3000]);
+                let per_block = ((BLOCK_MAX as u32 / ml).max(1)).min(*r.pick(&[1u32, 2, 2, 40])) as u8;
+                // the offset reaches far beyond anything the window and one call's output can hold, and at least `ml`
+                // bytes of dictionary lie behind the match start
+                let offset = content_len - r.below(8) as u32;
+                Load::DictRun { dict_seed: 1 + r.below(2), content_len, window_log: *r.pick(&[10u8, 10, 12, 14]), nblocks: *r.pick(&[3u16, 8, 40, 120]), per_block, ml, offset, tail_lits: r.below(3) as u8 }
+            }
             10 => Load::BlockRun { window_log: *r.pick(&[17u8, 17, 18, 20]), nblocks: *r.pick(&[3u16, 20, 60, 150, 300]), raw_every: *r.pick(&[0u8, 0, 2, 7]), block_len: *r.pick(&[BLOCK_MAX as u32, BLOCK_MAX as u32, 100_000, 4096]), seed: r.next_u64() },
             0..=3 => Load::Bomb(gen_bomb_spec(&mut r)),
             4..=6 => Load::Valid(draw_frame_spec(&mut r, &prof, pool)),
@@ -180,14 +221,25 @@ impl Engine for C05 {
         let window = match &load {
             Load::Valid(s) | Load::Corrupt { frame: s, .. } => get_frame(s).map(|f| f.window().min(1 << 24) as usize).unwrap_or(1024),
             Load::Bomb(s) => walker::window_from_descriptor(s.header.window_desc) as usize,
-            Load::BlockRun { window_log, .. } => 1usize << *window_log,
+            Load::BlockRun { window_log, .. } | Load::DictRun { window_log, .. } => 1usize << *window_log,
         };
         let before_window_log = if r.chance(1, 6) { Some(*r.pick(&[20u8, 23, 23, 24])) } else { None };
         C05Plan { before_window_log, load, front, calls: gen_calls(&mut r, front, window), chunks: crate::driver::gen_chunks(&mut r) }
     }
 
     fn exec(&self, plan: &C05Plan, stats: &mut Stats, log: Option<&mut Vec<Value>>) -> Result<RunOutcome, HarnessError> {
+        let mut dict_raw: Option<std::sync::Arc<(Vec<u8>, u32, usize)>> = None;
         let (bytes, kind, valid_frame): (Vec<u8>, &str, Option<std::sync::Arc<Frame>>) = match &plan.load {
+            Load::DictRun { dict_seed, content_len, window_log, nblocks, per_block, ml, offset, tail_lits } => {
+                let d = padded_dict(*dict_seed, *content_len as usize)?;
+                let (mlc, mle, _) = crate::fsepre::ml_code((*ml).clamp(3, 131_074));
+                let (ofc, ofe, _) = crate::fsepre::of_code((*offset).max(1) + 3);
+                let block = SynthBlock::Seq { lits: SynthLits::Rle { byte: b'd', len: *tail_lits as u32 }, ll_code: 0, ml_code: mlc, of_code: ofc, extras: vec![[0, mle, ofe]; (*per_block).max(1) as usize] };
+                let spec = SynthSpec { header: synth::SynthHeader { single_segment: false, fcs_width: 0, fcs_value: None, window_desc: synth::wd(*window_log), checksum: false, dict_id: Some((d.1, 4)) }, blocks: vec![block; (*nblocks).max(1) as usize] };
+                let b = synth::build(&spec, &[], [1, 4, 8]);
+                dict_raw = Some(d);
+                (b.bytes, "dict_run", None)
+            }
             Load::Valid(s) => {
                 let f = get_frame(s)?;
                 (f.bytes.clone(), "valid", Some(f))
@@ -274,6 +326,13 @@ impl Engine for C05 {
         // optional history: a tiny complete frame with a large window on the decoder that is measured afterwards
         let new_decoder = |stats: &mut Stats| -> FrameDecoder {
             let mut dec = FrameDecoder::new();
+            if let Some(d) = &dict_raw {
+                if let Ok(dict) = ruzstd::decoding::Dictionary::decode_dict(&d.0) {
+                    if dec.add_dict(dict).is_ok() {
+                        stats.inc("probe.dictionary_registered");
+                    }
+                }
+            }
             if let Some(k) = plan.before_window_log {
                 let mut f = crate::walker::ZSTD_MAGIC.to_le_bytes().to_vec();
                 f.push(0x00);
@@ -483,6 +542,9 @@ impl Engine for C05 {
                         worst = Some(violation("C05/valid_frame_rejected", format!("a valid frame was rejected ({front_name} front end)")));
                     }
                 }
+                "dict_run" => {
+                    stats.inc(if got_err { "probe.dict_run_rejected" } else { "probe.dict_run_decoded" });
+                }
                 _ => {
                     if got_err {
                         stats.inc("probe.corrupt_rejected");
@@ -561,13 +623,22 @@ impl Engine for C05 {
                 }
             }
             Load::BlockRun { .. } => {}
+            Load::DictRun { dict_seed, content_len, window_log, nblocks, per_block, ml, offset, tail_lits } => {
+                if *nblocks > 2 {
+                    out.push(C05Plan { load: Load::DictRun { dict_seed: *dict_seed, content_len: *content_len, window_log: *window_log, nblocks: nblocks / 2, per_block: *per_block, ml: *ml, offset: *offset, tail_lits: *tail_lits }, ..plan.clone() });
+                }
+                if *per_block > 1 {
+                    out.push(C05Plan { load: Load::DictRun { dict_seed: *dict_seed, content_len: *content_len, window_log: *window_log, nblocks: *nblocks, per_block: 1, ml: *ml, offset: *offset, tail_lits: *tail_lits }, ..plan.clone() });
+                }
+            }
         }
         out
     }
 
     fn rule(&self) -> String {
         "one run = one input (40% hostile expansion frames from the spec-directed builder: N RLE-mode sequences with match-length codes 43-52 and maximal extra bits, RLE literals declaring up to \
-         2^20-1 bytes, just-over-the-limit blocks, inside the 1st..4th block, windows 1 KiB - 1 MiB; 30% libzstd-validated valid frames; 30% valid frames with 1-4 stored-byte faults) x one front end \
+         2^20-1 bytes, just-over-the-limit blocks, inside the 1st..4th block, windows 1 KiB - 1 MiB; 30% libzstd-validated valid frames; 30% valid frames with 1-4 stored-byte faults; long valid runs of maximum-size RLE / raw blocks; frames naming a registered \
+         dictionary whose blocks are nothing but matches lying entirely in the dictionary content) x one front end \
          (reader API with UptoBytes/UptoBlocks budgets, StreamingDecoder::read sizes, slice API chunkings) x a seeded cyclic list of budgets x a source fragmentation script. Before each decode call \
          everything collectable is drained; after it the bytes held (exact, ring positions) and the call's peak heap growth are compared with the bound. Non-trivial = at least one decode call was \
          issued; distinct = distinct plan hash."
@@ -592,6 +663,6 @@ impl Engine for C05 {
     }
 
     fn expected_reach(&self, _tier: Tier) -> Vec<&'static str> {
-        vec!["load.bomb", "load.valid", "load.corrupt", "load.block_run", "probe.measured_on_reused_decoder_after_larger_window", "front.reader", "front.stream", "front.slice", "probe.bomb_rejected", "probe.corrupt_rejected", "probe.corrupt_accepted", "probe.held_above_window_plus_block", "probe.content_larger_than_window"]
+        vec!["load.bomb", "load.valid", "load.corrupt", "load.block_run", "load.dict_run", "probe.dictionary_registered", "probe.dict_run_decoded", "probe.measured_on_reused_decoder_after_larger_window", "front.reader", "front.stream", "front.slice", "probe.bomb_rejected", "probe.corrupt_rejected", "probe.corrupt_accepted", "probe.held_above_window_plus_block", "probe.content_larger_than_window"]
     }
 }
